@@ -66,7 +66,8 @@ def build(cls, variant):
     y = QActivation(act)(i)
   elif cls == "QAdaptiveActivation":
     i = L.Input((5,))
-    y = QAdaptiveActivation("quantized_relu" if variant in ("fixed", "po2", "auto_axis") else "quantized_bits", 5)(i)
+    y = QAdaptiveActivation("quantized_relu" if variant in ("fixed", "po2", "auto_axis") else "quantized_bits", 5,
+                            ema_decay=0.5, quantization_delay=1)(i)       # (a decay under which a few training calls move the statistics)
   elif cls == "QBatchNormalization":
     i = L.Input((5,))
     if none:
